@@ -7,7 +7,7 @@
      kdf_out      : digests are non-empty byte strings,
      kdf_inj      : no collisions beyond the schema's own key equivalence,
      kdf_resp     : equivalent keys give equal digests (PBKDF2-HMAC). *)
-From Whawty Require Import Bytes Names Record Store StoreSpec Store_proofs.
+From Whawty Require Import Bytes Names Record Store StoreSpec Store_proofs StoreTrace C01t_proofs.
 Open Scope N_scope.
 
 Section C01.
@@ -62,6 +62,27 @@ Print Assumptions C01_store_refines_spec.
 Print Assumptions C01_auth_iff.
 Print Assumptions C01_list_agrees.
 Print Assumptions C01_near_miss_argon2id.
+
+(* At system-call level (StoreTrace.v): an ACKNOWLEDGED add / update is effective whatever single
+   I/O error was injected on the way ([ft : option fault], None = undisturbed): the password just
+   set authenticates against the resulting directory, with the admin flag asked for (add) or the
+   user's existing one (update), not upgradeable, last change = the time stamp written.  The
+   four side conditions of the sharper versions in C01t_proofs are each necessary
+   (C01t_proofs.Necessity). *)
+Theorem C01_acked_add_effective_under_any_fault : forall kdf ft c d u pw adm o s,
+  cfg_wf c -> oracle_ok o ->
+  (forall h s p dg, kdf h s p = Some dg -> bytes_wf dg = true) ->
+  p_add kdf ft c d u pw adm o = (ROk, s) ->
+  exists ts, authenticate kdf c (t_dir s) u pw = OAuth true adm false ts.
+Proof. exact acked_add_authenticates_wf. Qed.
+Theorem C01_acked_update_effective_under_any_fault : forall kdf ft c d u pw o s,
+  cfg_wf c -> oracle_ok o ->
+  (forall h s p dg, kdf h s p = Some dg -> bytes_wf dg = true) ->
+  p_update kdf ft c d u pw o = (ROk, s) ->
+  exists adm ts, authenticate kdf c (t_dir s) u pw = OAuth true adm false ts.
+Proof. exact acked_update_authenticates_wf. Qed.
+Print Assumptions C01_acked_add_effective_under_any_fault.
+Print Assumptions C01_acked_update_effective_under_any_fault.
 
 (* the only passwords not told apart under hmac_sha256_scrypt *)
 Theorem C01_keyeq_scrypt_short : forall sha256 k cst r pp p q,
